@@ -576,6 +576,128 @@ def d6_typed_segments(chk: Check) -> None:
         raise AnalysisError("typed record sites of the parser: {}".format(n))
 
 
+def d6b_final_store_takes_text_kinds(chk: Check) -> None:
+    """When the text ends, whatever has been accumulated is recorded as one
+    last segment under the pending type.  That is right for a KEY (or
+    nothing pending) and an ANCHOR, whose attributes are text.  The
+    bracketed kinds get their attributes as objects from the arm that sees
+    the closing `]`; if the text ends before that -- `[min(])` leaves
+    KEYWORD_SEARCH pending with the text `]` -- the final store must refuse,
+    or the evaluator meets a keyword segment with text attributes
+    (NotImplementedError)."""
+    from sa.peval import Enum, PEval
+    prog = chk.prog
+    chk.rule("C14-D6b", "the final store after the character loop refuses "
+             "a pending KEYWORD_SEARCH (whose attributes must be a terms "
+             "object) and accepts KEY and ANCHOR (the statement before it, "
+             "specialised per member)", floor=3)
+    fi = prog.func("YAMLPath._parse_path")
+    site = None
+    for st in fi.node.body:
+        if isinstance(st, ast.If) and not any(
+                isinstance(a, (ast.For, ast.While)) for a in ast.walk(st)):
+            for b in st.body:
+                for c in ast.walk(b):
+                    if isinstance(c, ast.Call) and \
+                            src(c.func).endswith("_expand_splats"):
+                        site = (st, c)
+    if site is None:
+        raise AnalysisError("final store of the parser not found")
+    outer, call = site
+    tvar = src(call.args[-1])
+    pre = []
+    for b in outer.body:
+        if any(c is call for c in ast.walk(b)):
+            break
+        pre.append(b)
+    pe = PEval(enum_classes={"PathSegmentTypes"})
+    # SEARCH / INDEX / COLLECTOR cannot be pending here: their opening mark
+    # is still on the demarcation stack and the balance check above has
+    # refused the text.  A keyword's parenthesis can be closed by `)` after
+    # a stray `]` has popped the bracket, so KEYWORD_SEARCH can.
+    for member, refused in (("KEYWORD_SEARCH", True),
+                            ("KEY", False), ("ANCHOR", False)):
+        res = pe.specialise(pre, {tvar: Enum("PathSegmentTypes", member)},
+                            pinned=[tvar])
+        raises = any(isinstance(x, ast.Raise) for r in res
+                     for x in ast.walk(r))
+        text = "text ends with {} pending".format(member)
+        if raises == refused:
+            chk.ok("C14-D6b", fi, call, text,
+                   "refused" if refused else "recorded")
+        elif refused:
+            chk.fail("C14-D6b", fi, call, text,
+                     "the accumulated text is recorded as a {} segment "
+                     "with plain text attributes (`[min(])` -> "
+                     "(KEYWORD_SEARCH, ']')): get_nodes() answers with "
+                     "NotImplementedError / AttributeError instead of a "
+                     "YAML Path error".format(member))
+        else:
+            chk.fail("C14-D6b", fi, call, text,
+                     "a path ending in a {} segment is refused".format(
+                         member))
+
+
+def d8_exceptions_are_constructible(chk: Check, cl: List[FuncInfo]) -> None:
+    """`raise YAMLPathException(message, yaml_path)`: the constructor takes
+    the message *and* the path.  A slipped parenthesis --
+    `"...{} in".format(op, yaml_path))` -- hands the path to .format() and
+    builds the exception with one argument, so what escapes is a TypeError
+    from the constructor, not the YAML Path error that was meant.  Such a
+    raise sits on a path no test visits (it is an error path by nature)."""
+    prog = chk.prog
+    chk.rule("C14-D8", "every raise of a library exception in the closure "
+             "gives the constructor at least its required arguments, and "
+             "every constructed library exception is raised (not returned)",
+             floor=10)
+    n = 0
+    for fi in cl:
+        for r in walk_local(fi.node):
+            call = None
+            if isinstance(r, ast.Raise) and isinstance(r.exc, ast.Call):
+                call = r.exc
+            elif isinstance(r, ast.Return) and isinstance(r.value, ast.Call) \
+                    and src(r.value.func).endswith("Exception"):
+                chk.fail("C14-D8", fi, r, "{}: `{}`".format(
+                    fi.short, src(r)[:50]),
+                    "the exception object is *returned*: the caller "
+                    "receives it in place of the segment list and fails "
+                    "with AttributeError on the first use")
+                n += 1
+                continue
+            if call is None:
+                continue
+            cname = src(call.func).split(".")[-1]
+            if not prog.has_class(cname):
+                continue
+            ci = prog.class_by_name(cname)
+            init = prog.find_method(ci, "__init__")
+            if init is None:
+                continue
+            a = init.node.args
+            pos = [x.arg for x in a.posonlyargs + a.args][1:]
+            required = pos[:len(pos) - len(a.defaults)]
+            if any(isinstance(x, ast.Starred) for x in call.args) or any(
+                    k.arg is None for k in call.keywords):
+                continue
+            given = len(call.args) + sum(1 for k in call.keywords
+                                         if k.arg in required)
+            n += 1
+            text = "{}: raise {}({} argument(s))".format(
+                fi.short, cname, len(call.args) + len(call.keywords))
+            if given >= len(required):
+                chk.ok("C14-D8", fi, r, text, "needs {}".format(
+                    len(required)), False)
+            else:
+                chk.fail("C14-D8", fi, r, text,
+                         "{}.__init__ requires {}: this raise ends in "
+                         "TypeError (missing positional argument) instead "
+                         "of the library's exception".format(cname,
+                                                              required))
+    if n < 10:
+        raise AnalysisError("library raises in the closure: {}".format(n))
+
+
 def d7_attrs_become_text_by_conversion(chk: Check) -> None:
     """The attributes of a segment are text, an int (INDEX), or one of the
     terms objects (SearchTerms, CollectorTerms, SearchKeywordTerms -- a
@@ -624,5 +746,7 @@ def run(chk: Check) -> None:
     d2c_templates(chk, cl)
     d3_termination(chk, cl)
     d6_typed_segments(chk)
+    d6b_final_store_takes_text_kinds(chk)
     d7_attrs_become_text_by_conversion(chk)
+    d8_exceptions_are_constructible(chk, cl)
     chk.notes.append("closure: {} functions".format(len(cl)))
